@@ -27,7 +27,7 @@ def _search(seed):
     return go
 
 def check(tier, seed):
-    rep = Report("C17", tier, seed, "proof of the layout/descriptor/flag logic + correspondence; partial (ABI is runtime)")
+    rep = Report("C17", tier, seed, "proof")
     proof_stage(rep, PROP_MODULE, required=REQUIRED, search=_search(seed))
     res, stats = ffi_corr.run_correspondence(rep, tier, seed)
     rep.cov.update(trusted_base=["Lean 4.33 kernel", "axioms: propext, Classical.choice, Quot.sound",
